@@ -190,11 +190,12 @@ Proof.
   unfold remove_session_sub in E.
   destruct (nget (b_subs b) id) as [s|] eqn:Es.
   2:{ inversion E; subst. exists []. rewrite app_nil_r. split; [reflexivity|]. split; [apply only_events_nil|]. split; [apply ev_held_nil|exact Hsub]. }
-  destruct (match sub_subs (mkSub (sub_id s) (sub_topic s) (sub_match s) (nremove sid (sub_subs s))) with
-            | [] => negb (has_history b id) | _ => false end) eqn:Ed.
-  - inversion E; subst b' pg' o'. eexists. split; [reflexivity|]. split; [apply sme_only_events|]. split; [|exact Hsub].
+  cbv zeta in E.
+  match type of E with context [if ?c then _ else _] => destruct c end; inversion E; subst b' pg' o'.
+  - eexists. split; [reflexivity|]. split; [apply only_events_app; apply sme_only_events|]. split; [|exact Hsub].
+    intros z sub p d a k H. apply Hsub. apply in_app_or in H. destruct H as [H|H]; eapply sme_held; eauto.
+  - eexists. split; [reflexivity|]. split; [apply sme_only_events|]. split; [|exact Hsub].
     intros z sub p d a k H. apply Hsub. eapply sme_held; eauto.
-  - inversion E; subst. exists []. rewrite app_nil_r. split; [reflexivity|]. split; [apply only_events_nil|]. split; [apply ev_held_nil|exact Hsub].
 Qed.
 
 Lemma rs_fold_events : forall sid ids b pg o b' pg' o',
